@@ -125,7 +125,7 @@ class AccWalker(pathwalk.Walker):
         if n['k'] == 'BinaryOperator' and n['op'] in ('==', '!='):
             a, b = fn.sn(n['ch'][0]), fn.sn(n['ch'][1])
             for x, y in ((a, b), (b, a)):
-                if 'v' in y and y.get('t') == STATE_ENUM and y['v'] in self.val2s:
+                if 'v' in y and STATE_ENUM in y.get('t', '') and y['v'] in self.val2s:
                     key = None
                     if x['k'] == 'CXXMemberCallExpr' and self.is_result_method(x, 'State'):
                         key = self.obj(fn, x['obj'], st)
